@@ -2,7 +2,8 @@
    The swap decision of the model is the one the translator found in stream.go (Gen/SwitchC06.v):
    the proofs below are about exactly that decision and stop compiling when it changes. *)
 From Coq Require Import List ZArith Lia Bool Arith.
-From Shm Require Import Gen.Consts Gen.SwitchC06 Model.LinkedBuffer Proofs.LinkedBufferProofs.
+From Shm Require Import Gen.Consts Gen.SwitchC06 Model.LinkedBuffer Proofs.LinkedBufferProofs Proofs.LinkedBufferStore
+  Proofs.LinkedBufferWriter Proofs.LinkedBufferXfer Proofs.LinkedBufferPipe.
 Import ListNotations.
 Close Scope Z_scope.
 Open Scope nat_scope.
@@ -100,3 +101,128 @@ Fixpoint dagrees (D : dsys) (sp0 sp1 : spec) (ops : list dop) : Prop :=
           /\ dagrees D' sp0' sp1' r
     end
   end.
+
+(* ---------------------------------------------------------------------------------------- *)
+(* the invariant of the stream pair: each direction satisfies the pipe invariant, the slots of the   *)
+(* other direction being "external" (never touched, never free)                                       *)
+(* ---------------------------------------------------------------------------------------- *)
+Definition mk_sys (m : shm) (h : half) (o : list slice) : sys :=
+  {| mem := m; snd := h_snd h; infb := h_infb h; pend := h_pend h; rcv := h_rcv h; oth := o |}.
+
+Definition owned (h : half) (idss : list (list nat)) : list nat :=
+  offs (slices (h_snd h)) ++ concat idss ++ offs (slices (h_rcv h)) ++ offs (pinned (h_rcv h)).
+
+Lemma cnt_owned h idss x : cnt (owned h idss) x =
+  cnt (offs (slices (h_snd h))) x + cnt (concat idss) x + cnt (offs (slices (h_rcv h))) x + cnt (offs (pinned (h_rcv h))) x.
+Proof. unfold owned. rewrite !cnt_app. lia. Qed.
+
+Definition DInv (D : dsys) (sp0 sp1 : spec) : Prop :=
+  exists idss0 idss1,
+    Inv (owned (d_1 D) idss1) (slot_at (d_mem D)) (mk_sys (d_mem D) (d_0 D) (d_oth D)) sp0 idss0 /\
+    Inv (owned (d_0 D) idss0) (slot_at (d_mem D)) (mk_sys (d_mem D) (d_1 D) (d_oth D)) sp1 idss1.
+
+Lemma Inv_reghost ext Eg s sp idss : Inv ext Eg s sp idss -> Inv ext (slot_at (mem s)) s sp idss.
+Proof. intros [I1 I2 I3 I4 I5 I6 I7 I8 I9 I10 I11 I12 I13 I14 I15 I16 I17]. constructor; auto. Qed.
+
+(* frame: the invariant of one direction survives any change of the store that leaves its slots alone *)
+Lemma Inv_transfer ext Eg m h oth0 sp idss m' oth' ext' b' :
+  Inv ext Eg (mk_sys m h oth0) sp idss ->
+  store_ok m' ->
+  (forall x, 0 < cnt (owned h idss) x -> slot_at m' x = slot_at m x) ->
+  (forall x, cnt (frees m') x + cnt (owned h idss) x + cnt (offs oth') x + cnt ext' x <= 1) ->
+  Forall (fun b => shmf b = true) oth' -> Forall (recyclable m') oth' ->
+  (b' = h_infb h \/ b' = true) ->
+  Inv ext' (slot_at m') (mk_sys m' (with_infb h b') oth') sp idss.
+Proof.
+  intros [I1 I2 I3 I4 I5 I6 I7 I8 I9 [I10a I10b] I11 I12 I13 I14 I15 I16 I17] Hok Hagree Hown Hos Hor Hb.
+  cbn [mk_sys mem snd infb pend rcv oth] in *.
+  assert (Hag : forall x, 0 < cnt (offs (slices (h_snd h))) x + cnt (concat idss) x + cnt (offs (slices (h_rcv h))) x
+                              + cnt (offs (pinned (h_rcv h))) x -> slot_at m' x = slot_at m x).
+  { intros x Hx. apply Hagree. rewrite cnt_owned. lia. }
+  constructor; cbn [mk_sys mem snd infb pend rcv oth with_infb h_snd h_infb h_pend h_rcv].
+  - exact Hok.
+  - apply (WB_frame m); [|exact I2]. intros x Hx. apply Hag. apply cnt_In in Hx. lia.
+  - rewrite (content_frame m m'); [exact I3|]. intros x Hx. apply Hag. apply cnt_In in Hx. lia.
+  - apply (pend_ok_frame m); [|exact I4]. intros x Hx. apply Hag. apply cnt_In in Hx. lia.
+  - apply (WF_frame m); [|exact I5]. intros x Hx. apply Hag. apply cnt_In in Hx. lia.
+  - rewrite (content_frame m m'); [exact I6|]. intros x Hx. apply Hag. apply cnt_In in Hx. lia.
+  - exact I7.
+  - intros x. specialize (Hown x). rewrite cnt_owned in Hown. lia.
+  - apply (recyclable_frame m); [|exact I9]. intros x Hx. rewrite offs_app in Hx. apply Hag.
+    apply in_app_or in Hx. destruct Hx as [Hx|Hx]; apply cnt_In in Hx; lia.
+  - split; assumption.
+  - exact I11.
+  - intros Eb. apply I12. destruct Hb as [Hb|Hb]; congruence.
+  - apply (leases_ok_frame m); [|exact I13]. intros x Hx. apply Hag. destruct Hx as [Hx|Hx]; apply cnt_In in Hx; lia.
+  - intros x _. reflexivity.
+  - exact I15.
+  - exact I16.
+  - exact I17.
+Qed.
+
+Lemma Inv_mk_eta ext Eg s sp idss : Inv ext Eg s sp idss -> Inv ext Eg (mk_sys (mem s) (half_of s) (oth s)) sp idss.
+Proof. destruct s. auto. Qed.
+
+Lemma with_infb_same h : with_infb h (h_infb h) = h.
+Proof. destruct h. reflexivity. Qed.
+
+Lemma owned_with_infb h b idss : owned (with_infb h b) idss = owned h idss.
+Proof. reflexivity. Qed.
+
+(* one operation of one direction, seen from both directions *)
+Lemma half_step m h k oth0 sp_h idss_h sp_k idss_k o :
+  Inv (owned k idss_k) (slot_at m) (mk_sys m h oth0) sp_h idss_h ->
+  Inv (owned h idss_h) (slot_at m) (mk_sys m k oth0) sp_k idss_k ->
+  match spec_step sp_h o with
+  | None => step (mk_sys m h oth0) o = Blocked
+  | Some (x, sp') =>
+      exists y s' idss', step (mk_sys m h oth0) o = Ok (y, s') /\ res_agree o x y /\
+        forall b', (b' = h_infb k \/ b' = true) ->
+          Inv (owned (with_infb k b') idss_k) (slot_at (mem s')) (mk_sys (mem s') (half_of s') (oth s')) sp' idss' /\
+          Inv (owned (half_of s') idss') (slot_at (mem s')) (mk_sys (mem s') (with_infb k b') (oth s')) sp_k idss_k
+  end.
+Proof.
+  intros Ih Ik. pose proof (step_inv _ _ _ _ _ o Ih) as H. destruct (spec_step sp_h o) as [[x sp']|]; [|exact H].
+  destruct H as [y [s' [idss' [Hs [Hr I']]]]]. exists y, s', idss'. split; [exact Hs|]. split; [exact Hr|].
+  intros b' Hb. split.
+  - rewrite owned_with_infb. apply Inv_mk_eta. eapply Inv_reghost. exact I'.
+  - eapply (Inv_transfer _ _ m k oth0 sp_k idss_k); [exact Ik|exact (iv_ok _ _ _ _ _ I')| | | | |exact Hb].
+    + intros z Hz. apply (iv_ext _ _ _ _ _ I'). exact Hz.
+    + intros z. pose proof (iv_own _ _ _ _ _ I' z) as Ho. rewrite !cnt_owned in *. cbn [half_of h_snd h_rcv]. lia.
+    + exact (proj1 (iv_oth _ _ _ _ _ I')).
+    + exact (proj2 (iv_oth _ _ _ _ _ I')).
+Qed.
+
+Definition dres_ok (o : dop) (x y : res) : Prop := dres_agree o x y.
+
+Lemma dstep_op_inv D sp0 sp1 d o : DInv D sp0 sp1 ->
+  match dspec_step sp0 sp1 (DOp d o) with
+  | None => mdstep D (DOp d o) = Blocked
+  | Some (x, sp0', sp1') => exists y D', mdstep D (DOp d o) = Ok (y, D') /\ res_agree o x y /\ DInv D' sp0' sp1'
+  end.
+Proof.
+  intros [idss0 [idss1 [I0 I1]]]. unfold mdstep, dstep. destruct d; cbn [dspec_step dview dhalf negb].
+  - (* direction 1: stream B writes, A reads *)
+    pose proof (half_step _ _ _ _ _ _ _ _ o I1 I0) as H. change (dview D true) with (mk_sys (d_mem D) (d_1 D) (d_oth D)).
+    destruct (spec_step sp1 o) as [[x sp']|].
+    + destruct H as [y [s' [idss' [Hs [Hr HI]]]]].
+      rewrite Hs. cbn [bind]. eexists. eexists. split; [reflexivity|]. split; [exact Hr|].
+      set (mv := existsb is_fallback (pend (mk_sys (d_mem D) (d_1 D) (d_oth D))) && match pend s' with [] => true | _ :: _ => false end).
+      destruct (HI (if mv then true else h_infb (d_0 D)) ltac:(destruct mv; auto)) as [J1 J0].
+      exists idss0, idss'. unfold dput. cbn [d_mem d_0 d_1 d_oth].
+      assert (Ek : (if mv then with_infb (d_0 D) true else d_0 D) = with_infb (d_0 D) (if mv then true else h_infb (d_0 D))).
+      { destruct mv; [reflexivity|symmetry; apply with_infb_same]. }
+      rewrite Ek. split; [exact J0|exact J1].
+    + rewrite H. reflexivity.
+  - pose proof (half_step _ _ _ _ _ _ _ _ o I0 I1) as H. change (dview D false) with (mk_sys (d_mem D) (d_0 D) (d_oth D)).
+    destruct (spec_step sp0 o) as [[x sp']|].
+    + destruct H as [y [s' [idss' [Hs [Hr HI]]]]].
+      rewrite Hs. cbn [bind]. eexists. eexists. split; [reflexivity|]. split; [exact Hr|].
+      set (mv := existsb is_fallback (pend (mk_sys (d_mem D) (d_0 D) (d_oth D))) && match pend s' with [] => true | _ :: _ => false end).
+      destruct (HI (if mv then true else h_infb (d_1 D)) ltac:(destruct mv; auto)) as [J0 J1].
+      exists idss', idss1. unfold dput. cbn [d_mem d_0 d_1 d_oth].
+      assert (Ek : (if mv then with_infb (d_1 D) true else d_1 D) = with_infb (d_1 D) (if mv then true else h_infb (d_1 D))).
+      { destruct mv; [reflexivity|symmetry; apply with_infb_same]. }
+      rewrite Ek. split; [exact J0|exact J1].
+    + rewrite H. reflexivity.
+Qed.
